@@ -203,6 +203,33 @@ def judge_idlist(case):
             acc += right
             if acc.items != ids or right.items != ids[cut:]:
                 bad('iadd', f'cut={cut} -> {acc.items}')
+            # every view of a value is consistent with its items at every moment: observe, change in place
+            # (+=, items surgery on a deep copy and on the value itself), observe again
+            import copy as _copy  # pylint: disable=import-outside-toplevel
+
+            def views_ok(val, label):
+                want = list(val.items)
+                seen = (str(val), namespaceids_t(str(val)).items if want else want, str(fqn_t(val)) if want else '',
+                        val == NamespaceIds(list(want)), hash(str(val)) == hash('.'.join(want)))
+                if seen != ('.'.join(want), want, '::'.join(want), True, True):
+                    bad(f'views-inconsistent-{label}', f'cut={cut} items={want} views={seen}')
+                    return False
+                return True
+            obs = NamespaceIds(ids[:cut])
+            if views_ok(obs, 'fresh'):
+                obs += right
+                views_ok(obs, 'after-iadd')
+                obs += NamespaceIds(['q'])
+                views_ok(obs, 'after-second-iadd')
+                dup = _copy.deepcopy(obs)
+                dup.items.pop()
+                views_ok(dup, 'deepcopy-after-pop')
+                views_ok(obs, 'original-after-copy-changed')
+                shallow = _copy.copy(obs)
+                views_ok(shallow, 'copy')
+                tot2 = obs + left
+                views_ok(tot2, 'after-add')
+                views_ok(obs, 'operand-after-add')
             tot = scoping.sum_namespaceids_items([left, right])
             if tot.items != ids or left.items != ids[:cut] or right.items != ids[cut:]:
                 bad('sum', f'cut={cut} -> {tot.items} left={left.items}')
